@@ -47,8 +47,9 @@ StepLine(e) ==
   /\ font.set
   /\ RCanonical(e.map) = TRUE          \* structure (forced to plain evaluation)
   /\ LET sty == [tc |-> e.tc, bg |-> e.bg, ulm |-> e.ul[1], ulc |-> e.ul[2], stm |-> e.st[1], stc |-> e.st[2]]
-         \* Text::lines() (api 0) takes ONE trailing CR of a line as part of its line ending; draw_string (api 1) does not
-         eff == IF e.api = 0 /\ Len(e.chars) > 0 /\ e.chars[Len(e.chars)] = 13 THEN SubSeq(e.chars, 1, Len(e.chars) - 1) ELSE e.chars
+         \* a line without LF is the last line of its text: no CR is part of a line ending there (D26), every CR is
+         \* an unmapped character with its own cell, for Text::draw (api 0) as for draw_string (api 1)
+         eff == e.chars
          ln  == [chars |-> eff, pos |-> e.pos, sty |-> sty, map |-> e.map]
          small == ~font.wf \/ Len(e.chars) * font.cw * font.ch <= 160
      IN /\ Report(e.case, LineFails(font, ln), LineDetail(font, ln))
